@@ -62,7 +62,11 @@ pub fn ref_tcp(cell: &Cell, q: &[f64; 6]) -> Fr {
 
 pub fn gen_scenario(rng: &mut Rng, idx: u64, for_schedules: bool) -> Option<Scenario> {
     let mut cell = Cell::generate(rng, idx, true, true, false);
-    cell.constraints = Constraints::new([-3.0; 6], [3.0; 6], 0.0);
+    // (free-form scenarios: a third of the robots ranks its IK answers by the constraint centres or a mix, not by
+    // closeness to previous - the planner must not rely on the head of the list being the continuous branch)
+    let weight = if !for_schedules && rng.usize(3) == 0 { *rng.pick(&[1.0, rng.clone().f()]) } else { 0.0 };
+    let _ = rng.next_u64();
+    cell.constraints = Constraints::new([-3.0; 6], [3.0; 6], weight);
     cell.safety = if rng.bool(0.5) { SafetySpec::touch(CheckMode::FirstCollisionOnly) } else { cell.random_safety(rng, CheckMode::FirstCollisionOnly) };
     if cell.safety.to_robot_default > 0.02 {
         cell.safety.to_robot_default = 0.005;
@@ -184,7 +188,7 @@ pub fn gen_scenario(rng: &mut Rng, idx: u64, for_schedules: bool) -> Option<Scen
                     let mut f = q_land;
                     f[j] = -q_land[j].signum() * rng.range(2.75, 2.95);
                     let saved = cell.constraints;
-                    cell.constraints = Constraints::new(lf, lt, 0.0);
+                    cell.constraints = Constraints::new(lf, lt, saved.sorting_weight);
                     if !cell.build().collides(&f) {
                         from = f;
                         start_class = "across_the_seam_with_an_unlimited_joint";
